@@ -38,30 +38,17 @@ Theorem ndjson_same_as_array : forall es, zipkin_decode fixed true es = zipkin_d
 Proof. exact SpansProofs.ndjson_same_as_array. Qed.
 Print Assumptions ndjson_same_as_array.
 
-(* read_back at full strength — the read path returns, for the stored row of every pushed span, a span with the same
-   ids, parent, name, start and end time, and the pushed attributes — is false: the read path takes a Zipkin parent id
-   from the payload only when it has exactly 16 hex digits, while the write path pads shorter ones. *)
-Theorem read_back_refuted : ~ read_back_for (fun _ => True).
-Proof. exact read_back_refuted_l. Qed.
-Print Assumptions read_back_refuted.
-
-(* ... and holds for every request whose Zipkin parent ids (if any) have 16 hex digits (all OTLP requests qualify). *)
-Theorem read_back_partial : forall inp rows ps,
+(* The read path returns, for the stored row of every pushed span, a span with the same ids, parent, name, start and
+   end time and the pushed attributes (OTLP: exactly the pushed attribute map, with the synthesised service names;
+   Zipkin: the pushed tags, followed only by endpoint and service.name attributes).  [in_range]: OTLP times are uint64. *)
+Theorem read_back : forall inp rows ps,
   decode fixed inp = Some rows -> pushed_of inp = Some ps -> in_range inp ->
-  forallb parent_len_ok (in_elems inp) = true ->
-  Forall2 (fun p sr => reads_back true p (read_row fixed (in_elems inp) (fst sr))) ps rows.
-Proof. exact read_back_partial_l. Qed.
-Print Assumptions read_back_partial.
-
-(* Without the guard everything but the parent still reads back (Zipkin requests of any shape). *)
-Theorem read_back_zipkin_but_parent : forall nd es rows ps,
-  zipkin_decode fixed nd es = Some rows -> pushed_of (InZipkin nd es) = Some ps ->
-  Forall2 (fun pe sr => reads_back (parent_len_ok (snd pe)) (fst pe) (read_row fixed es (fst sr))) (combine ps es) rows.
-Proof. exact zipkin_read_back. Qed.
-Print Assumptions read_back_zipkin_but_parent.
+  Forall2 (fun p sr => reads_back p (read_row fixed (in_elems inp) (fst sr))) ps rows.
+Proof. exact read_back_l. Qed.
+Print Assumptions read_back.
 
 (* The oracle the check evaluates on the IMPLEMENTATION's observations (spec_ok: rows_ok, tags_ok, reads_ok) accepts the
    model's own output for every request: the three clauses above are what the correspondence run tests. *)
-Theorem model_meets_spec : forall inp, in_range inp -> spec_ok false (model_case fixed inp) = true.
+Theorem model_meets_spec : forall inp, in_range inp -> spec_ok (model_case fixed inp) = true.
 Proof. exact model_meets_spec_l. Qed.
 Print Assumptions model_meets_spec.
